@@ -31,7 +31,7 @@ RULE = ("grids 6-64 odd/even/rectangular, anisotropic sampling 0.03-0.4 A, energ
         "shift of at least 0.05 pixel; distinct = distinct case signature")
 CLAUSES = ["tilt-equals-shift", "tilt-equals-roll", "vacuum-shift", "planewave-unit-modulus", "axes-equal-pairs", "base-equal-pairs"]
 QUICK = dict(n=500, time=32)
-THOROUGH = dict(n=9600, time=200, shards=16)
+THOROUGH = dict(n=54140, time=480, shards=16)
 
 TOL = {"float32": 1e-4, "float64": 5e-10}
 MOD_TOL = {"float32": 2e-5, "float64": 1e-11}
